@@ -2,6 +2,7 @@ import CJ.Drv.Loop
 import CJ.Drv.HalfPipe
 import CJ.Drv.RelayClock
 import CJ.Drv.StatsEpoch
+import CJ.Drv.ProxyHeader
 /-! Driver for C05: the relay model (`halfPipe`, `Proxy`), the relay's deadlines on a virtual clock, and the
 proxy statistics across epochs. -/
 open CJ.Drv
@@ -12,4 +13,5 @@ def main : IO Unit := runDriver fun
   | "relayclock" :: args => RelayClock.handle args
   | "statsepoch" :: args => StatsEpoch.handle args
   | "sessions" :: args => StatsEpoch.handleSessions args
+  | "proxyhdr" :: args => ProxyHeader.handle args
   | _ => none
